@@ -3,8 +3,9 @@
 //!     `map track` closures create tracked values; the observation gets ` ; D created=.. cloned=.. dropped=.. live=.. dd=..`
 //!     measured after the parse result has been dropped.
 //!   * `DR <id> ce <N> <boxed 0|1> <parse|check> <lo> <hi|-> I <inputs>`: statically typed
-//!     `just('a').map(track).repeated().at_least(lo).at_most(hi).collect_exactly::<[Tracker; N]>()` (or `Box<[_; N]>`)
+//!     `just('a').map(track).repeated().at_least(lo).at_most(hi).collect_exactly::<[T; N]>()` (or `Box<[_; N]>`)
 //!   * `DR <id> ga <N> 0 <parse|check> 0 - I <inputs>`: `group([just('a').map(track); N])`
+//!   * families `cz` / `gz`: the same two with a ZERO-SIZED tracked item type (`ZTr`)
 //!   * `DR <id> tk <slice|stream> 0 <parse|check> 0 - I <inputs>`: tracked *tokens* supplied by the caller
 //!     output: `<id>.<k> M created=<c> dropped=<d> returned=<r> ok=<0|1> live=<l> dd=<0|1>` where created/dropped are counted
 //!     when `parse` returns, returned = tracked values inside the output, live/dd after the output has been dropped.
@@ -27,7 +28,7 @@ type Ex = extra::Err<Cheap>;
 fn stats() -> (u64, u64, usize, bool) {
     TRK.with(|t| {
         let t = t.borrow();
-        (t.created + t.cloned, t.dropped, t.live.len(), t.double)
+        (t.created + t.cloned, t.dropped, (t.live.len() as i64 + t.zlive).max(0) as usize, t.double)
     })
 }
 
@@ -42,26 +43,26 @@ fn observe<T>(res: Option<T>, count: impl Fn(&T) -> usize) -> String {
     format!("created={created} dropped={dropped} returned={returned} ok={ok} live={live} dd={}", if dd { 1 } else { 0 })
 }
 
-fn track_item<'a>() -> impl Parser<'a, &'a str, Tracker, Ex> + Clone {
-    just('a').map(|_| Tracker::new())
+fn track_item<'a, T: Tracked + 'a>() -> impl Parser<'a, &'a str, T, Ex> + Clone {
+    just('a').map(|_| T::make())
 }
 
-fn ce<const N: usize>(boxed: bool, check: bool, lo: usize, hi: Option<usize>, input: &str) -> String {
-    let it = track_item().repeated().at_least(lo);
+fn ce<T: Tracked, const N: usize>(boxed: bool, check: bool, lo: usize, hi: Option<usize>, input: &str) -> String {
+    let it = track_item::<T>().repeated().at_least(lo);
     let it = match hi {
         Some(h) => it.at_most(h),
         None => it,
     };
     let rest = any::<&str, Ex>().repeated();
     if boxed {
-        let p = it.collect_exactly::<Box<[Tracker; N]>>().then_ignore(rest);
+        let p = it.collect_exactly::<Box<[T; N]>>().then_ignore(rest);
         if check {
             observe(p.check(input).into_output(), |_| 0)
         } else {
             observe(p.parse(input).into_output(), |b| b.len())
         }
     } else {
-        let p = it.collect_exactly::<[Tracker; N]>().then_ignore(rest);
+        let p = it.collect_exactly::<[T; N]>().then_ignore(rest);
         if check {
             observe(p.check(input).into_output(), |_| 0)
         } else {
@@ -70,13 +71,13 @@ fn ce<const N: usize>(boxed: bool, check: bool, lo: usize, hi: Option<usize>, in
     }
 }
 
-fn ga<const N: usize>(check: bool, input: &str) -> String {
-    let ps: [_; N] = core::array::from_fn(|_| track_item());
+fn ga<T: Tracked, const N: usize>(check: bool, input: &str) -> String {
+    let ps: [_; N] = core::array::from_fn(|_| track_item::<T>());
     let p = group(ps).then_ignore(any::<&str, Ex>().repeated());
     if check {
         observe(p.check(input).into_output(), |_| 0)
     } else {
-        observe(p.parse(input).into_output(), |b: &[Tracker; N]| b.len())
+        observe(p.parse(input).into_output(), |b: &[T; N]| b.len())
     }
 }
 
@@ -150,18 +151,30 @@ fn dr_line(toks: &[&str], w: &mut dyn Write) {
         let s: String = chars.iter().collect();
         trk_reset();
         let r = catch_unwind(AssertUnwindSafe(|| match (fam, n) {
-            ("ce", 0) => ce::<0>(boxed, check, lo, hi, &s),
-            ("ce", 1) => ce::<1>(boxed, check, lo, hi, &s),
-            ("ce", 2) => ce::<2>(boxed, check, lo, hi, &s),
-            ("ce", 3) => ce::<3>(boxed, check, lo, hi, &s),
-            ("ce", 4) => ce::<4>(boxed, check, lo, hi, &s),
-            ("ce", 7) => ce::<7>(boxed, check, lo, hi, &s),
-            ("ga", 0) => ga::<0>(check, &s),
-            ("ga", 1) => ga::<1>(check, &s),
-            ("ga", 2) => ga::<2>(check, &s),
-            ("ga", 3) => ga::<3>(check, &s),
-            ("ga", 4) => ga::<4>(check, &s),
-            ("ga", 7) => ga::<7>(check, &s),
+            ("ce", 0) => ce::<Tracker, 0>(boxed, check, lo, hi, &s),
+            ("ce", 1) => ce::<Tracker, 1>(boxed, check, lo, hi, &s),
+            ("ce", 2) => ce::<Tracker, 2>(boxed, check, lo, hi, &s),
+            ("ce", 3) => ce::<Tracker, 3>(boxed, check, lo, hi, &s),
+            ("ce", 4) => ce::<Tracker, 4>(boxed, check, lo, hi, &s),
+            ("ce", 7) => ce::<Tracker, 7>(boxed, check, lo, hi, &s),
+            ("cz", 0) => ce::<ZTr, 0>(boxed, check, lo, hi, &s),
+            ("cz", 1) => ce::<ZTr, 1>(boxed, check, lo, hi, &s),
+            ("cz", 2) => ce::<ZTr, 2>(boxed, check, lo, hi, &s),
+            ("cz", 3) => ce::<ZTr, 3>(boxed, check, lo, hi, &s),
+            ("cz", 4) => ce::<ZTr, 4>(boxed, check, lo, hi, &s),
+            ("cz", 7) => ce::<ZTr, 7>(boxed, check, lo, hi, &s),
+            ("ga", 0) => ga::<Tracker, 0>(check, &s),
+            ("ga", 1) => ga::<Tracker, 1>(check, &s),
+            ("ga", 2) => ga::<Tracker, 2>(check, &s),
+            ("ga", 3) => ga::<Tracker, 3>(check, &s),
+            ("ga", 4) => ga::<Tracker, 4>(check, &s),
+            ("ga", 7) => ga::<Tracker, 7>(check, &s),
+            ("gz", 0) => ga::<ZTr, 0>(check, &s),
+            ("gz", 1) => ga::<ZTr, 1>(check, &s),
+            ("gz", 2) => ga::<ZTr, 2>(check, &s),
+            ("gz", 3) => ga::<ZTr, 3>(check, &s),
+            ("gz", 4) => ga::<ZTr, 4>(check, &s),
+            ("gz", 7) => ga::<ZTr, 7>(check, &s),
             ("tk", _) => tk(boxed, check, &chars),
             _ => "ERR unknown-family".to_string(),
         }))
